@@ -45,7 +45,7 @@ import numpy as np, networkx as nx
 from qibo import Circuit, gates
 from qibo.backends import NumpyBackend
 from qibo.transpiler.pipeline import Passes, restrict_connectivity_qubits
-from qibo.transpiler.optimizer import Preprocessing
+from qibo.transpiler.optimizer import Preprocessing, Rearrange
 from qibo.transpiler.placer import Random, Subgraph, ReverseTraversal, StarConnectivityPlacer
 from qibo.transpiler.router import ShortestPaths, Sabre, StarConnectivityRouter
 from qibo.transpiler.unroller import Unroller, NativeGates
@@ -141,7 +141,9 @@ def equal_up_to_phase(A, B, exact):
 def sig(g):
     """class + parameters of a gate (no qubits)."""
     if isinstance(g, gates.M):
-        return ("M", tuple(b.__name__ for b in g.basis_gates), bool(g.collapse))
+        # every constructor argument of the entry, readout-error maps in the order of its qubits
+        return ("M", tuple(map(str, g.init_kwargs.get("basis") or ())), bool(g.collapse), regname(g),
+                tuple(float(g.bitflip_map[0].get(q, 0)) for q in g.qubits), tuple(float(g.bitflip_map[1].get(q, 0)) for q in g.qubits))
     if isinstance(g, gates.Unitary):
         pars = tuple(np.round(np.asarray(g.parameters[0], dtype=complex).reshape(-1), 9).tolist())
     else:
@@ -181,8 +183,8 @@ def graph_key(G):
     return (frozenset(map(repr, G.nodes)), frozenset(frozenset(map(repr, e)) for e in G.edges))
 
 
-def build_circuit(n, wire_names, gate_codes):
-    c = Circuit(n, wire_names=None if wire_names is None else list(wire_names))
+def build_circuit(n, wire_names, gate_codes, density_matrix=False):
+    c = Circuit(n, wire_names=None if wire_names is None else list(wire_names), density_matrix=bool(density_matrix))
     for code in gate_codes:
         c.add(eval(code, {"gates": gates, "np": np}))
     return c
@@ -216,6 +218,8 @@ def make_pass(desc, conn=None):
         return make_router(desc[1], dict(desc[2]), conn)
     if desc[0] == "unroller":
         return Unroller(natives_of(desc[1]))
+    if desc[0] == "rearrange":
+        return Rearrange(max_qubits=desc[1])
     raise ValueError(desc)
 
 
@@ -247,6 +251,38 @@ def frequencies(circuit, bits, nshots=8):
     flat = dict(r.frequencies(binary=True))
     regs = {(regname_str(k)): dict(v) for k, v in r.frequencies(binary=True, registers=True).items()}
     return flat, regs
+
+
+def final_state(queue, n, bits):
+    """state tensor (axes = qubits) after the non-measurement gates of the queue, from a basis
+    state; computed with explicit matrices, not with qibo's execution."""
+    psi = np.zeros((2,) * n, dtype=complex)
+    psi[tuple(bits)] = 1
+    for g in queue:
+        if isinstance(g, gates.M):
+            continue
+        m, qs = local_matrix(g)
+        k = len(qs)
+        psi = np.tensordot(m.reshape((2,) * (2 * k)), psi, axes=(list(range(k, 2 * k)), qs))
+        psi = np.moveaxis(psi, list(range(k)), qs)
+    return psi
+
+
+def register_distribution(psi, m):
+    """exact outcome distribution of one reporting measurement entry: marginal of the final
+    state on the entry's own qubits (in its order), pushed through its own readout-error maps
+    (bitflip_map[0][q]: 0 -> 1, bitflip_map[1][q]: 1 -> 0)."""
+    n = psi.ndim
+    pr = np.abs(psi) ** 2
+    qs = list(m.qubits)
+    pr = pr.sum(axis=tuple(a for a in range(n) if a not in qs)) if len(qs) < n else pr
+    rest = sorted(qs)
+    pr = np.transpose(pr, [rest.index(q) for q in qs])
+    for i, q in enumerate(qs):
+        p0, p1 = float(m.bitflip_map[0].get(q, 0)), float(m.bitflip_map[1].get(q, 0))
+        flip = np.array([[1 - p0, p1], [p0, 1 - p1]])
+        pr = np.moveaxis(np.tensordot(flip, pr, axes=(1, i)), 0, i)
+    return pr.reshape(-1)
 
 
 def regname_str(r):
@@ -321,14 +357,14 @@ def check_output(case, c, before, out, layout, P, D):
                 break
     # operator: out == P_f . (in (x) 1) up to a global phase
     exact = bool(case.get("exact")) and "unroller" not in kinds
-    Uin = operator(build_circuit(n, case["wire_names"], case["gates"]).queue, n)
+    Uin = operator(build_circuit(n, case["wire_names"], case["gates"], case.get("density_matrix")).queue, n)
     Upad = pad_operator(Uin, n, N)
     want = np.moveaxis(Upad, list(range(N)), f)
     Uout = operator(out.queue, N)
     if not equal_up_to_phase(Uout, want, exact):
         bad.append(("operator", f"output operator differs from P.(U (x) 1) with layout {f} (wire_names {wn})"))
     # measurements: same registers, same order of qubits, moved through the layout
-    ref = build_circuit(n, case["wire_names"], case["gates"])
+    ref = build_circuit(n, case["wire_names"], case["gates"], case.get("density_matrix"))
     # (a collapsing measurement inside the trailing block may change place with a reporting one on
     # the same qubit — routers re-attach the reporting ones last; its position enters the operator
     # identity and the multiset comparison below)
@@ -349,6 +385,32 @@ def check_output(case, c, before, out, layout, P, D):
     elif keep(min_) != keep(mout) or coll(min_) != coll(mout):
         bad.append(("measurements", f"measurement gates of the output {[(m.register_name, m.qubits, m.collapse) for m in mout]} "
                                     f"do not match those of the input {[(m.register_name, m.qubits, m.collapse) for m in min_]}"))
+    # every reporting measurement entry: readout-error maps re-keyed to the physical qubits, and the
+    # exact outcome distribution of its register = that of the input's entry (final-state marginal)
+    rin, rout = [m for m in min_ if not m.collapse], [m for m in mout if not m.collapse]
+    if len(rin) == len(rout) and not any(k in ("measurements", "registers-dropped") for k, _ in bad):
+        for a, b in zip(rin, rout):
+            if tuple(b.qubits) == tuple(f[q] for q in a.qubits):
+                for k in (0, 1):
+                    if {f[q]: float(v) for q, v in a.bitflip_map[k].items()} != {q: float(v) for q, v in b.bitflip_map[k].items()}:
+                        bad.append(("measurement-attributes", f"register {a.register_name} on {a.qubits}: readout-error map p{k} {a.bitflip_map[k]} "
+                                    f"became {b.bitflip_map[k]} on {b.qubits} (layout {f})"))
+                        break
+        if not any(m.collapse for m in min_) and N <= 6:
+            for bits in ([[0] * n] + list(case.get("inputs", []))[:1]):
+                pa, pb = final_state(ref.queue, n, bits), final_state(out.queue, N, list(bits) + [0] * (N - n))
+                for a, b in zip(rin, rout):
+                    da, db = register_distribution(pa, a), register_distribution(pb, b)
+                    if da.shape != db.shape or not np.allclose(da, db, atol=1e-7, rtol=0):
+                        bad.append(("register-distribution", f"input bits {bits}: register {a.register_name} (qubits {a.qubits}, readout error {a.bitflip_map}) "
+                                    f"has outcome distribution {np.round(da, 4).tolist()}, the transpiled entry (qubits {b.qubits}, readout error "
+                                    f"{b.bitflip_map}) {np.round(db, 4).tolist()}"))
+                        break
+                else:
+                    continue
+                break
+    if case.get("density_matrix") is not None and bool(out.density_matrix) != bool(case["density_matrix"]):
+        bad.append(("density-matrix", f"the input circuit has density_matrix={case['density_matrix']}, the transpiled one {out.density_matrix}"))
     # the circuit given by the caller is not changed (placers work in place on wire_names
     # only, and only when the pipeline did not have to pad)
     if before is not None:
@@ -380,7 +442,7 @@ def check_output(case, c, before, out, layout, P, D):
 def expected_refusal(case, e):
     """documented refusals: Subgraph needs two two-qubit gates, ReverseTraversal with a
     depth needs one."""
-    ref = build_circuit(case["n"], case["wire_names"], case["gates"])
+    ref = build_circuit(case["n"], case["wire_names"], case["gates"], case.get("density_matrix"))
     two = sum(1 for g in ref.queue if len(g.qubits) == 2 and not isinstance(g, gates.M))
     for d in case["passes"]:
         if d[0] == "placer" and d[1] == "Subgraph" and two < 2 and isinstance(e, ValueError) and "at least two two-qubit gates" in str(e):
@@ -402,7 +464,7 @@ def run_case(case, calls=1, same_circuit=False):
     c = None
     for k in range(calls):
         if c is None or not same_circuit:
-            c = build_circuit(case["n"], case["wire_names"], case["gates"])
+            c = build_circuit(case["n"], case["wire_names"], case["gates"], case.get("density_matrix"))
         before = snapshot(c)
         if k > 0 and same_circuit and any(d[0] == "placer" for d in case["passes"]) and c.nqubits == len(D.nodes):
             before = None      # a placer already renamed the wires of this very circuit (documented: in place)
@@ -529,8 +591,10 @@ def int_matrix(rng, d):
     return "[" + ",".join("[" + ",".join(_cstr(x) for x in row) + "]" for row in m) + "]"
 
 
-def random_gate(rng, n, mode):
-    two = n >= 2 and rng.random() < 0.6
+def random_gate(rng, n, mode, on=None):
+    """on: the qubits the gate may act on (default: all n)."""
+    on = list(range(n)) if on is None else list(on)
+    two = len(on) >= 2 and rng.random() < 0.6
     t = round(rng.uniform(-3, 3), 3)
     if mode == "det":
         pool = DET_2Q if two else DET_1Q
@@ -547,16 +611,73 @@ def random_gate(rng, n, mode):
         pool = INT_2Q if two else INT_1Q
     code = rng.choice(pool)
     if two:
-        a, b = rng.sample(range(n), 2)
+        a, b = rng.sample(on, 2)
         return code.format(a, b, t=t)
-    return code.format(rng.randrange(n), t=t)
+    return code.format(rng.choice(on), t=t)
+
+
+def noise_arg(rng, part, det):
+    """a readout-error argument in one of its three forms (float / list / dict keyed by qubit)."""
+    val = (lambda: rng.choice([0.0, 1.0])) if det else (lambda: rng.choice([0.0, 1.0, 0.25, 0.1, round(rng.uniform(0, 1), 3)]))
+    form = rng.choice(["float", "list", "dict"])
+    if form == "float":
+        return repr(float(val()))
+    if form == "list":
+        return "[" + ", ".join(repr(float(val())) for _ in part) + "]"
+    keys = rng.sample(list(part), rng.randint(1, len(part)))
+    return "{" + ", ".join(f"{q}: {float(val())!r}" for q in keys) + "}"
+
+
+def meas_code(rng, part, reg, det, basis=None):
+    """a reporting measurement entry with register name, readout-error maps and bases
+    (bases only where the operator identity is compared with a tolerance)."""
+    basis = (not det) if basis is None else basis
+    kw = ""
+    if rng.random() < 0.7:
+        kw += f", register_name='r{reg}'"
+    r = rng.random()
+    if r < 0.35:
+        kw += f", p0={noise_arg(rng, part, det)}"
+    elif r < 0.55:
+        kw += f", p0={noise_arg(rng, part, det)}, p1={noise_arg(rng, part, det)}"
+    elif r < 0.62:
+        kw += f", p1={noise_arg(rng, part, det)}"
+    if basis and rng.random() < 0.35:
+        kw += ", basis=[" + ", ".join(rng.choice(["gates.X", "gates.Y", "gates.Z"]) for _ in part) + "]"
+    return f"gates.M({','.join(map(str, part))}{kw})"
 
 
 def random_recipe(rng, n, ngates, mode, meas):
     """meas: 'none' | 'trailing' | 'mid' (one-qubit mid-circuit measurements and trailing
-    registers with unsorted qubits)."""
+    registers with unsorted qubits) | 'rich' (reporting entries at the start, in the middle and at
+    the end — final but not trailing —, every wire measured at most once, with register names,
+    readout-error maps in float / list / dict form and, for non-deterministic circuits, X / Y bases;
+    now and then a collapsing one)."""
     codes = []
     reg = 0
+    if meas == "rich":
+        # (qibo turns a measurement into a collapsing one when a later gate touches its qubits:
+        # a reporting entry is final for its wires, so later gates stay off them)
+        det = mode in ("det", "detcnot")
+        free = list(range(n))
+        todo = rng.sample(range(n), rng.randint(1, n))
+        slots = sorted(rng.choice([0, ngates, rng.randint(0, ngates), rng.randint(0, ngates)]) for _ in range(len(todo)))
+        for step in range(ngates + 1):
+            k = slots.count(step)
+            if k:
+                part, todo = todo[:k], todo[k:]
+                while part:
+                    j = rng.randint(1, min(len(part), 3))
+                    codes.append(meas_code(rng, part[:j], reg, det, basis=mode in ("named", "cnot")))
+                    free = [q for q in free if q not in part[:j]]
+                    part = part[j:]
+                    reg += 1
+            if step < ngates and free:
+                if rng.random() < 0.06 and len(free) > 1:
+                    q = rng.choice(free)
+                    codes.append(f"gates.M({q}, collapse=True)")
+                codes.append(random_gate(rng, n, mode, on=free))
+        return codes
     for _ in range(ngates):
         if meas == "mid" and rng.random() < 0.12:
             q = rng.randrange(n)
@@ -695,7 +816,7 @@ def make_case(rng, shape=None, style=None, placer="auto", router="auto", unroll=
     if unroll != "none" and mode == "int":
         mode = "named"
     if meas is None:
-        meas = rng.choice(["none", "trailing", "trailing", "mid"])
+        meas = rng.choice(["none", "trailing", "trailing", "mid", "rich", "rich"])
     ng = ngates if ngates is not None else rng.randint(0, 10)
     gl = random_recipe(rng, n, ng, mode, meas)
     passes = []
@@ -727,6 +848,63 @@ def make_two_routers(rng):
                      ngates=rng.randint(3, 8))
     i = next(k for k, d in enumerate(case["passes"]) if d[0] == "router")
     case["passes"].insert(i + 1, router_desc(rng, rng.choice(["ShortestPaths", "Sabre"])))
+    return case
+
+
+def make_star_mid(rng):
+    """star device, StarConnectivityRouter: a reporting measurement (final, not trailing) of the
+    logical qubit that sits on the centre when it is met, then two-qubit gates between leaves (the
+    router swaps the centre away), then more gates and registers."""
+    det = rng.random() < 0.6
+    case = make_case(rng, shape="star5", placer=rng.choice(["none", "none", "Star"]), router="Star",
+                     unroll=rng.choice(["none", "none", "default", "cz_u3", "iswap_gpi2"]), pre=True, mode="det" if det else "named",
+                     meas="none", restrict=False, ngates=0)
+    n, wn = case["n"], case["wire_names"] if case["wire_names"] is not None else list(range(case["n"]))
+    deg = {}
+    for a, b in case["edges"]:
+        deg[a] = deg.get(a, 0) + 1
+        deg[b] = deg.get(b, 0) + 1
+    centre = max(deg, key=deg.get)
+    mode = case["mode"]
+    qc = wn.index(centre) if centre in wn else rng.randrange(n)
+    others = [q for q in range(n) if q != qc]
+    codes = [random_gate(rng, n, mode) for _ in range(rng.randint(0, 2))]
+    codes.append(rng.choice(DET_1Q).format(qc))
+    codes.append(meas_code(rng, [qc], 0, det))
+    reg = 1
+    for _ in range(rng.randint(1, 4)):
+        if len(others) >= 2 and rng.random() < 0.7:
+            a, b = rng.sample(others, 2)
+            codes.append(rng.choice(CNOT_2Q if mode in ("detcnot", "cnot") else DET_2Q).format(a, b))
+        else:
+            codes.append(random_gate(rng, n, mode))
+        if others and rng.random() < 0.3:
+            q = others.pop(rng.randrange(len(others)))
+            codes.append(meas_code(rng, [q], reg, det))
+            reg += 1
+    rest = list(others)
+    rng.shuffle(rest)
+    rest = rest[: rng.randint(0, len(rest))]
+    if rest:
+        codes.append(meas_code(rng, rest, reg, det))
+    case["gates"] = codes
+    return case
+
+
+# Preprocessing / Rearrange / StarConnectivityRouter drop the circuit's density_matrix flag (reported to
+# the lead with /tmp/patches/d11_density_matrix_flag.diff); switch on once repaired: key `<passes>:density-matrix`
+DM_FLAG = True
+
+
+def make_rearrange(rng):
+    """a pipeline with the optimizer pass Rearrange (fusion into Unitary gates) in front."""
+    k = rng.choice([1, 2])
+    case = make_case(rng, placer=rng.choice(["none", "Random"]), router=rng.choice(["ShortestPaths", "Sabre", "none"]),
+                     unroll=rng.choice(["none", "default", "cz_u3"]) if k == 1 else "none",   # (numerical KAK of fused 2-qubit unitaries: C10)
+                     mode=rng.choice(["det", "named"]), meas=rng.choice(["trailing", "rich", "rich"]), ngates=rng.randint(2, 8))
+    i = 1 if case["passes"] and case["passes"][0][0] == "pre" and rng.random() < 0.6 else 0
+    case["passes"].insert(i, ["rearrange", k])
+    case["exact"] = False
     return case
 
 
@@ -778,7 +956,7 @@ def make_shared(rng):
 
 
 def case_label(case):
-    return "+".join(d[0] if d[0] == "pre" else (d[1] if d[0] != "unroller" else "Unroller") for d in case["passes"]) or "empty"
+    return "+".join(d[0] if d[0] == "pre" else ("Rearrange" if d[0] == "rearrange" else d[1] if d[0] != "unroller" else "Unroller") for d in case["passes"]) or "empty"
 
 
 # ---------------------------------------------------------------------------
@@ -801,7 +979,7 @@ class Enc:
     def gate(self, g):
         s = SPEC["sig"](g)
         c = self.cls.setdefault(type(g).__name__, 10 + len(self.cls))
-        t = 0 if isinstance(g, gates.M) else self.tags.setdefault(s, len(self.tags) + 1)
+        t = self.tags.setdefault(s, len(self.tags) + 1)   # a measurement's tag stands for ALL its constructor arguments
         return (c, t, tuple(int(q) for q in g.qubits))
 
     def gtoks(self, g):
@@ -880,7 +1058,7 @@ def pad_suite(ctx, st, rng):
                     else:
                         wn = rng.sample(nodes, n)
                         wn[rng.randrange(n)] = "zz" if style == "str" else 99
-                    cases.append((nodes, edges, n, wn, random_recipe(rng, n, rng.randint(0, 5), "int", rng.choice(["none", "trailing", "mid"]))))
+                    cases.append((nodes, edges, n, wn, random_recipe(rng, n, rng.randint(0, 5), "int", rng.choice(["none", "trailing", "mid", "rich", "rich"]))))
     for nodes, edges, n, wn, gl in cases:
         enc = Enc()
         G = SPEC["build_graph"](nodes, edges)
@@ -1402,6 +1580,9 @@ def search_suite(ctx, rng):
     # arbitrary pass lists: extra Preprocessing / Unroller passes at any position
     for _ in range(1500 if ctx.thorough else 150):
         cases.append(make_odd(rng, make_case(rng, ngates=rng.randint(1, 8))))
+    # star device: reporting measurements met while their qubit sits on the centre, leaf-leaf gates after them
+    for _ in range(800 if ctx.thorough else 90):
+        cases.append(make_star_mid(rng))
     if TWO_ROUTERS:
         for _ in range(300 if ctx.thorough else 40):
             cases.append(make_two_routers(rng))
@@ -1412,6 +1593,14 @@ def search_suite(ctx, rng):
     for _ in range(4000 if ctx.thorough else 350):
         cases.append(make_case(rng, shape=rng.choice(MAIN_SHAPES), pre=True, small=True, mode="det", meas=rng.choice(["trailing", "mid"]),
                                router=rng.choice(["ShortestPaths", "Sabre"]), ngates=rng.randint(2, 9)))
+    # the optimizer pass Rearrange in the pipeline (search only: not a pass of the Lean model)
+    for _ in range(500 if ctx.thorough else 60):
+        cases.append(make_rearrange(rng))
+    if DM_FLAG:
+        for _ in range(200 if ctx.thorough else 30):
+            case = make_case(rng, mode="det", meas=rng.choice(["trailing", "rich"]), ngates=rng.randint(1, 6))
+            case["density_matrix"] = True
+            cases.append(case)
     for case in cases:
         calls = rng.choice([1, 1, 1, 2])
         same = calls == 2 and rng.random() < 0.4
@@ -1429,6 +1618,13 @@ def search_suite(ctx, rng):
             ctx.stat("search_smaller_than_device")
         if case["det"]:
             ctx.stat("search_outcomes_compared")
+        if any("p0=" in c or "p1=" in c for c in case["gates"]):
+            ctx.stat("search_noisy_measurements")
+        if any("basis=" in c for c in case["gates"]):
+            ctx.stat("search_basis_measurements")
+        gl_ = case["gates"]
+        if any(c.startswith("gates.M(") and "collapse" not in c and any(not x.startswith("gates.M(") for x in gl_[i + 1:]) for i, c in enumerate(gl_)):
+            ctx.stat("search_final_not_trailing_measurements")
         if len([d for d in case["passes"] if d[0] in ("pre", "unroller")]) > len({d[0] for d in case["passes"] if d[0] in ("pre", "unroller")}):
             ctx.stat("search_repeated_passes")
         if bad:
@@ -1571,8 +1767,8 @@ def run_default(case):
         t = _Global.transpiler()
         D = build_graph(case["nodes"], case["edges"])
         for k in range(case.get("calls", 1)):
-            c = build_circuit(case["n"], case["wire_names"], case["gates"])
-            ref = build_circuit(case["n"], case["wire_names"], case["gates"])
+            c = build_circuit(case["n"], case["wire_names"], case["gates"], case.get("density_matrix"))
+            ref = build_circuit(case["n"], case["wire_names"], case["gates"], case.get("density_matrix"))
             bits = case["inputs"][k % len(case["inputs"])]
             N = len(case["nodes"])
             try:
@@ -1895,6 +2091,8 @@ def run(ctx):
     # the recorded pipeline replay on a subset of the search cases (all pass combinations)
     sub = cases[: (3000 if ctx.thorough else 700)]
     for case in sub:
+        if any(d[0] == "rearrange" for d in case["passes"]):
+            continue
         try:
             pipe_record(ctx, st, case)
         except Exception as e:
@@ -1911,6 +2109,8 @@ def run(ctx):
     corr_of = {"padding": ["C11_corr_pad", "C11_corr_pipeline"], "placement": ["C11_corr_pipeline"], "layout": ["C11_corr_pipeline"],
                "accept:is_satisfied": ["C11_corr_asserts", "C11_corr_pipeline"], "accept:connectivity": ["C11_corr_pipeline", "C11_corr_contracts"],
                "accept:decomposition": ["C11_corr_pipeline", "C11_corr_contracts"], "connectivity": ["C11_corr_contracts"],
+               "measurement-attributes": ["C11_corr_pad", "C11_corr_contracts", "C11_corr_pipeline"],
+               "register-distribution": ["C11_corr_pad", "C11_corr_contracts", "C11_corr_pipeline"],
                "decomposition": ["C11_corr_contracts", "C11_corr_dispatch"], "measurements": ["C11_corr_contracts"], "registers-dropped": ["C11_corr_contracts"], "restrict": ["C11_corr_restrict"]}
     for case, calls, same, bad in failing:
         for kind in sorted({k for k, _ in bad}):
@@ -1998,6 +2198,7 @@ def run(ctx):
     ctx.ob("C11_corr_dispatch", not st.bad.get("dispatch"), "correspondence", st.detail.get("dispatch", ""))
     ctx.ob("C11_corr_pipeline", not st.bad.get("pipe"), "correspondence", st.detail.get("pipe", ""))
     ctx.ob("C11_corr_contracts", not st.bad.get("contract"), "correspondence", st.detail.get("contract", ""))
+    ctx.sample({"suite": "measurement entries", "meaning": "reporting measurements at the start / middle / end (final but not trailing), on star devices met while their qubit sits on the centre with leaf-leaf gates after them, with register names, readout-error maps (float / list / dict p0, p1) and X / Y bases, circuits smaller than the device and equal: every entry of the output keeps its maps re-keyed to the physical qubits, and the exact outcome distribution of every register (marginal of the final state on the entry's own qubits through its own readout-error maps, states computed with explicit matrices) equals the input entry's; deterministic circuits with p in {0, 1} are also sampled through qibo's execution"})
     ctx.sample({"suite": "pipeline replay", "meaning": "every pass object of a real Passes.__call__ logs its call; the Lean model runPasses is fed the oracle answers (placer wire names, routed queue + layout, unrolled queue), must reproduce nqubits / wire_names / queue length / final layout after every pass and the four acceptance verdicts, and validates each answer against the contract T11_compose assumes (permOf, routeOk, unrollOk)"})
     ctx.sample({"suite": "property search", "meaning": "is_satisfied and each assert_* on the output, independent edge / native test, exact (integer data) or up-to-phase operator identity out == P_layout . (in (x) 1), own wires kept by padding, registers and qubit order of measurements, outcomes on basis states, input and graph not mutated, Passes object and circuit object reused"})
     ctx.sample({"suite": "unroller inside the model", "meaning": "LOCAL: localCheck on the shapes of all six real translation tables (every class, boundary and random parameters) = hypothesis TablesLocal of T11_unrollOk_derived; DISPATCH: for the real Unroller calls recorded inside real pipeline runs, C10's dispatch model on the real tables' shapes returns the real unrolled queue gate by gate, and closedCheck && localCheck && unrollInputOk give unrollOk (T11_dispatch_pass_valid)"})
@@ -2006,3 +2207,5 @@ def run(ctx):
     ctx.trusted.append("placer searches (Random sampling, Subgraph isomorphism, ReverseTraversal) and routers are oracles of the pipeline model: their answers are validated on every run (permOf / routeOk), their internals are C09; the unroller's contract unrollOk is derived from C10's dispatch model and the locality / closure of the real tables' shapes (decided on every run), and still validated on every recorded run")
     ctx.trusted.append("measurements enter the operator identity as a fixed 2x2 marker on each measured qubit; outcomes are compared on basis-state inputs of deterministic circuits")
     ctx.notes.append("devices: 5-node star / line / ring / T, 2-4-node lines and ring, 2x3 grid, labels = ints in order, permuted ints, ints with gaps, strings; on_qubits restrictions to connected 3-5 node subsets; circuits of 1..N qubits with wire-name subsets in arbitrary order or default names; placers none / Random / Subgraph / ReverseTraversal(Sabre|ShortestPaths, depth) / StarConnectivityPlacer x routers ShortestPaths / Sabre / StarConnectivityRouter / none x 8 native sets / no unroller, with and without Preprocessing; trailing registers with unsorted qubits, one-qubit mid-circuit and collapsing measurements; calls repeated on the same Passes object (fresh and same circuit); default transpiler through a stub backend")
+    from props import basis_meas
+    basis_meas.run(ctx, PROP, ["rearrange1", "rearrange2", "preprocessing"])
